@@ -8,7 +8,7 @@ import numpy as np
 TR = ('LRG', 'ELG', 'QSO')
 
 
-def gen_tables(rng, H, P, lbox=2000.0, with_env=True, dtype=np.float64):
+def gen_tables(rng, H, P, lbox=2000.0, with_env=True, dtype=np.float64, mass_step=None):
     hid = np.sort(rng.choice(np.arange(10, 10 + 20 * max(H, 1)), H, replace=False)).astype(np.int64) if H else np.zeros(0, dtype=np.int64)
     halo = dict(
         hpos=rng.uniform(-lbox / 2, lbox / 2, (H, 3)).astype(dtype),
@@ -26,9 +26,15 @@ def gen_tables(rng, H, P, lbox=2000.0, with_env=True, dtype=np.float64):
         halo['hdeltac'] = rng.uniform(-0.5, 0.5, H).astype(dtype)
         halo['hfenv'] = rng.uniform(-0.5, 0.5, H).astype(dtype)
         halo['hshear'] = rng.uniform(-0.5, 0.5, H).astype(dtype)
-    if H and rng.random() < 0.5:
-        # halo masses are particle counts x particle mass in real catalogues: many hosts share a mass exactly
-        halo['hmass'] = (10 ** (np.round(np.log10(halo['hmass']) / 0.05) * 0.05)).astype(dtype)
+    rq = rng.random() if H else 1.0
+    if rq < 0.5:
+        # halo masses are particle counts x particle mass in real catalogues: many hosts share a mass exactly (a quarter of the
+        # tables has only a handful of distinct masses, so that neighbouring hosts of equal mass and different environment abound)
+        step = 0.05 if rq < 0.25 else 0.5
+    if mass_step:
+        rq, step = 0.0, mass_step
+    if rq < 0.5:
+        halo['hmass'] = (10 ** (np.round(np.log10(halo['hmass']) / step) * step)).astype(dtype)
     pinds = np.sort(rng.integers(0, H, P)) if H else np.zeros(0, dtype=np.int64)
     part = dict(
         ppos=(halo['hpos'][pinds] + rng.normal(0, 0.5, (P, 3))).astype(dtype),
